@@ -169,7 +169,7 @@ def _is_verdict(msg):
     return any(p in msg for p in VERDICT_PATTERNS)
 
 
-def _classify(diags, table, unit, cfg, text_lines=None):
+def _classify(diags, table, unit, cfg, text_lines=None, lifted=None):
     """Turn verus diagnostics into failures / undecided reasons."""
     failures, undecided = [], []
     for d in diags:
@@ -234,6 +234,18 @@ def _classify(diags, table, unit, cfg, text_lines=None):
         rec = {'obligation': obligation, 'kind': kind, 'message': msg.split('\n')[0], 'source': src_loc, 'labels': labels,
                'properties': props, 'canary': canary, 'rendered': d.get('rendered', '')[:4000],
                'function': enclosing_fn(text_lines, labels[0]['assembled_line']) if (text_lines and labels and not str(labels[0]['file']).startswith('vstd:')) else None}
+        fn_name = rec.get('function')
+        if not in_lifted and not named and not canary and lifted and fn_name in lifted and 'assertion failed' in kind:
+            # a proof step spliced into a lifted function (a fact about the program state at that point, proved on the unchanged
+            # tree) no longer holds: the verifier assumes it from there on, so the clauses it serves are no longer established.
+            # It is a failed obligation of that function, attributed to the properties its named clauses serve.
+            clauses = lifted[fn_name]
+            props2 = sorted({p for n in clauses for p in n.split('.')[0].split('+') if re.fullmatch(r'C\d{2,3}', p)}) or list(cfg['properties'])
+            rec['properties'] = props2
+            rec['obligation'] = f"{unit}.{fn_name}.proof-step: " + (labels[0]['text'][:90] if labels else '?')
+            rec['serves'] = clauses
+            failures.append(rec)
+            continue
         if not in_lifted and not named and not canary:
             undecided.append(f'proof of a framework lemma/spec failed ({kind}) at assembled line {labels[0]["assembled_line"] if labels else "?"}: ' + (labels[0]['text'] if labels else ''))
             continue
@@ -309,7 +321,8 @@ def _run_unit_once(unit, tier, seed, carry):
             res['undecided'].append('verus internal error (panic): ' + next(x for x in r['stderr_other'] if 'panicked at' in x)[:200])
         if r['summary'] is None:
             res['undecided'].append(f'verus produced no summary (rc={r["rc"]}): ' + ' | '.join(r['stderr_other'][:3])[:500])
-        fails, und = _classify(r['diags'], table, unit, cfg, text_lines)
+        lifted = {(f.get('fn_emitted') or f.get('as') or f['name']): f.get('named_clauses', []) for f in meta.get('functions', []) if f['kind'] in ('item', 'tail', 'loop', 'let')}
+        fails, und = _classify(r['diags'], table, unit, cfg, text_lines, lifted)
         if sd is None:
             res['_diags'] = r['diags']
         for f in fails:
@@ -449,7 +462,7 @@ def run_unit(unit, tier='quick', seed=0):
                 m = re.search(r'\(assembled line (\d+)\)', u)
                 fn = enclosing_fn(tl, int(m.group(1))) if (m and tl) else None
                 fns.add(fn)
-            lifted = {f.get('as') or f['name'] for f in r.get('meta', {}).get('functions', []) if f['kind'] != 'type'}
+            lifted = {n for f in r.get('meta', {}).get('functions', []) if f['kind'] != 'type' for n in (f.get('fn_emitted'), f.get('as') or f['name']) if n}
             prev = carry.get('degrade') or set()
             if None in fns or not fns <= lifted or fns <= prev:
                 carry['degrade'] = True
@@ -540,6 +553,18 @@ def check_property(pid, tier='quick', seed=0):
             continue
         nviol += 1
         lines.append(f'VIOLATION property={pid} replay={path}' + ('' if found else ' no-failing-input-found'))
+    # bounded stand-in (DESIGN.md section 6): a unit the verifier's front end could not take after a change is not judged by
+    # the verifier at all; the bounded search over the same oracles stands in for it. A found input is replayed on the real
+    # code and reported (labelled bounded); finding none leaves the unit undecided.
+    for r in results:
+        fe = [u for u in r['undecided'] if u.startswith('verifier front-end:') or u.startswith('lift')]
+        if r['status'] != 'undecided' or not fe or nviol:
+            continue
+        path, found = rp.make_standin_replay(pid, r['unit'], fe, seed)
+        if found:
+            nviol += 1
+            lines.append(f'VIOLATION property={pid} replay={path}')
+            print(f'[{pid}] unit {r["unit"]}: outside the verifier\'s reach after this change ({fe[0][:160]}); bounded stand-in search found a failing input')
     thorough_extra = {}
     if tier == 'thorough' and not violations and not undecided:
         thorough_extra = rp.thorough_extras(pid, units, seed)
